@@ -281,6 +281,9 @@ func (l *Lab) Close() {
 	if l.Store != nil {
 		l.Store.MessageStore.Close()
 	}
+	// The session object (and through its application callbacks this lab) stays reachable from the engine's
+	// pending timeout closures for several seconds: let go of the trace now, or fast workloads hold tens of GB.
+	l.Trace, l.OutThisStep, l.RawThisStep, l.inBuf = nil, nil, nil, nil
 }
 
 func (l *Lab) add(e Event, snap bool) {
@@ -331,7 +334,7 @@ func (l *Lab) Start() { l.begin("start"); l.V.Start(); l.drain() }
 func (l *Lab) Connect() error {
 	l.begin("connect")
 	l.Conn++
-	l.Out = make(chan []byte, 8192)
+	l.Out = make(chan []byte, 1024) // frames of one step; histories are far shorter than this
 	l.closedSeen = false
 	l.inBuf = nil
 	err := l.V.Connect(l.Out)
